@@ -3,6 +3,7 @@ package main
 import (
 	"context"
 	"fmt"
+	"os"
 	"sort"
 	"strconv"
 	"strings"
@@ -306,6 +307,7 @@ type locksState struct {
 	n          uint64
 	xhash      bool
 	s          *sched.S
+	rm         *remap.ReMap
 	wide, ref  lockAPI
 	// semaphore tokens per (thread, side): thread -> key -> *Weighted
 	tokW, tokR map[int]map[string]*semap.Weighted
@@ -324,7 +326,7 @@ func (r *runner) newLocks(f []string) string {
 	r.locksCleanup()
 	opt := remap.WithPrime(n)
 	x := f[3] == "xhash"
-	ls := &locksState{kind: f[1], n: n, xhash: x, s: sched.New(), tokW: map[int]map[string]*semap.Weighted{}, tokR: map[int]map[string]*semap.Weighted{}}
+	ls := &locksState{kind: f[1], n: n, xhash: x, s: sched.New(), rm: remap.NewReMap(opt), tokW: map[int]map[string]*semap.Weighted{}, tokR: map[int]map[string]*semap.Weighted{}}
 	switch f[1] {
 	case "klock":
 		ls.name, ls.ref = "keylock.KeyLockerGrp", klockAPI{keylock.NewKeyLocker()}
@@ -414,7 +416,11 @@ func (r *runner) locksOp(f []string) string {
 	}
 	for _, k := range keys {
 		if k.ty == "hit" && ls.xhash {
-			return "panic" // ToBytes has no arm for a HitGroup implementer (modelled as coded); never issued
+			// can the key be routed at all? (ToBytes without a HitGroup arm panics before any lock is touched)
+			if _, p := guardS(func() string { return strconv.Itoa(ls.rm.XHashIndex(k.v)) }); p {
+				r.hitGroupUnsupported(fmt.Sprintf("%s on %s with xxhash routing, %d shards", strings.Join(f, " "), ls.name, ls.n))
+				return "panic"
+			}
 		}
 	}
 	dup := map[string]bool{}
@@ -424,7 +430,7 @@ func (r *runner) locksOp(f []string) string {
 		}
 		dup[nm] = true
 	}
-	if len(r.hits) > 0 {
+	if r.lockBroken {
 		// the group already misbehaved in this script: its internal state no longer matches the table of holders, and
 		// releasing a sync.RWMutex that is not held is a fatal (unrecoverable) runtime error — issue nothing further
 		return "skipped"
@@ -448,19 +454,20 @@ func (r *runner) locksOp(f []string) string {
 		tw := ls.s.Go("wide", func() string { ls.wide.acquire(keys, write, multi, ls.tok(ls.tokW, t)); return "ret" })
 		tr := ls.s.Go("ref", func() string { ls.ref.acquire(keys, write, multi, ls.tok(ls.tokR, t)); return "ret" })
 		if err := ls.s.Settle(); err != nil {
-			return "sched-error"
+			fmt.Fprintln(os.Stderr, "c17: no quiescent state in a lock script:", err)
+			os.Exit(2) // harness error, never a verdict
 		}
 		sw, sr := statusOf(tw), statusOf(tr)
 		switch {
 		case strings.HasPrefix(sw, "panic"):
-			r.hit("C17:"+ls.name+":panics", sw+": "+ctx)
+			r.lockHit("C17:"+ls.name+":panics", sw+": "+ctx)
 		case sw == "ret" && conflict:
-			r.hit("C17:"+ls.name+":exclusion-lost", "the call returned although the key is held through another call: "+ctx)
+			r.lockHit("C17:"+ls.name+":exclusion-lost", "the call returned although the key is held through another call: "+ctx)
 		case sw == "parked" && !conflict:
-			r.hit("C17:"+ls.name+":blocks-without-conflict", ctx)
+			r.lockHit("C17:"+ls.name+":blocks-without-conflict", ctx)
 		}
-		if sw != sr && len(r.hits) == 0 {
-			r.hit("C17:"+ls.name+":differs-from-unsharded", fmt.Sprintf("group: %s, single locker: %s; %s", sw, sr, ctx))
+		if sw != sr && !r.lockBroken {
+			r.lockHit("C17:"+ls.name+":differs-from-unsharded", fmt.Sprintf("group: %s, single locker: %s; %s", sw, sr, ctx))
 		}
 		switch sw {
 		case "ret":
@@ -492,7 +499,8 @@ func (r *runner) locksOp(f []string) string {
 	tw := ls.s.Go("wide", func() string { ls.wide.release(keys, write, multi, ls.tok(ls.tokW, t)); return "ret" })
 	tr := ls.s.Go("ref", func() string { ls.ref.release(keys, write, multi, ls.tok(ls.tokR, t)); return "ret" })
 	if err := ls.s.Settle(); err != nil {
-		return "sched-error"
+		fmt.Fprintln(os.Stderr, "c17: no quiescent state in a lock script:", err)
+		os.Exit(2) // harness error, never a verdict
 	}
 	sw, sr := statusOf(tw), statusOf(tr)
 	if sw != "ret" {
@@ -500,14 +508,14 @@ func (r *runner) locksOp(f []string) string {
 		if sw == "parked" {
 			key = "release-blocks"
 		}
-		r.hit("C17:"+ls.name+":"+key, sw+": "+ctx)
+		r.lockHit("C17:"+ls.name+":"+key, sw+": "+ctx)
 		if sw != "parked" {
 			sw = "panic"
 		}
 		return sw
 	}
 	if sr != "ret" {
-		r.hit("C17:"+ls.name+":differs-from-unsharded", fmt.Sprintf("group: %s, single locker: %s; %s", sw, sr, ctx))
+		r.lockHit("C17:"+ls.name+":differs-from-unsharded", fmt.Sprintf("group: %s, single locker: %s; %s", sw, sr, ctx))
 	}
 	var rest []hold
 	for _, h := range ls.holds {
@@ -527,12 +535,12 @@ func (r *runner) locksOp(f []string) string {
 		woke, wokeRef := statusOf(p.wide) == "ret", statusOf(p.ref) == "ret"
 		switch {
 		case woke && !should:
-			r.hit("C17:"+ls.name+":exclusion-lost", fmt.Sprintf("the blocked call of thread %d on %v returned although a key is still held: %s", p.t, p.keys, ctx))
+			r.lockHit("C17:"+ls.name+":exclusion-lost", fmt.Sprintf("the blocked call of thread %d on %v returned although a key is still held: %s", p.t, p.keys, ctx))
 		case !woke && should:
-			r.hit("C17:"+ls.name+":blocked-call-not-released", fmt.Sprintf("thread %d still blocked on %v although nothing conflicts any more: %s", p.t, p.keys, ctx))
+			r.lockHit("C17:"+ls.name+":blocked-call-not-released", fmt.Sprintf("thread %d still blocked on %v although nothing conflicts any more: %s", p.t, p.keys, ctx))
 		}
-		if woke != wokeRef && len(r.hits) == 0 {
-			r.hit("C17:"+ls.name+":differs-from-unsharded", fmt.Sprintf("blocked call of thread %d: group returned=%v, single locker returned=%v; %s", p.t, woke, wokeRef, ctx))
+		if woke != wokeRef && !r.lockBroken {
+			r.lockHit("C17:"+ls.name+":differs-from-unsharded", fmt.Sprintf("blocked call of thread %d: group returned=%v, single locker returned=%v; %s", p.t, woke, wokeRef, ctx))
 		}
 		if woke {
 			for _, nm := range p.keys {
@@ -543,6 +551,11 @@ func (r *runner) locksOp(f []string) string {
 		}
 	}
 	return out
+}
+
+func (r *runner) lockHit(key, what string) {
+	r.lockBroken = true
+	r.hit(key, what)
 }
 
 func statusOf(t *sched.Task) string {
@@ -571,7 +584,7 @@ func (r *runner) locksCleanup() {
 		return
 	}
 	r.ls = nil
-	if len(r.hits) > 0 {
+	if r.lockBroken {
 		return // the two sides no longer agree with the table of holders: release nothing (an Unlock of a mutex that is not held is fatal)
 	}
 	sides := []struct {
